@@ -50,7 +50,13 @@ def _module_dirs(spec_path):
 
 
 def _java(extra_props=()):
-    return ["java", "-XX:+UseParallelGC", "-Xss16m"] + list(extra_props)
+    # a small initial heap and few GC threads: with the JVM defaults (1/4 of RAM, one GC thread per
+    # core) short TLC runs spend most of their time in page faults when the machine is shared
+    extra = list(extra_props)
+    base = ["java", "-XX:+UseParallelGC", "-XX:ParallelGCThreads=4", "-Xss16m", "-Xms256m"]
+    if not any(p.startswith("-Xmx") for p in extra):
+        base.append("-Xmx6g")
+    return base + extra
 
 
 def sany(spec_path, timeout=120):
@@ -167,7 +173,9 @@ def read_dump_json(dump_path, var="out"):
         for line in f:
             m = _RE_OUT.match(line)
             if m and m.group(1) == var:
-                cases.append(json.loads(_tla_unquote(m.group(2))))
+                text = _tla_unquote(m.group(2))
+                if text:                      # states that export nothing carry ""
+                    cases.append(json.loads(text))
     return cases
 
 
